@@ -55,6 +55,12 @@ def generate(g, tier):
             lib = PRE[c][0] + ('FUNC libf\n    PASS\n')
             cases.append(dict(op='compile_file', file='p/main.txt', files={'p/main.txt': 'START lib\nSTART lib\n' + define(c, nm), 'p/lib.txt': lib},
                               meta=dict(family='define-again-' + c, name=nm, valid=bool(IDENT.match(nm)))))
+    # a program given as a LIST of lines may hold a line break inside one element: a name followed by a line break is not a name
+    for nm in ('f', 'i', 'ok_1'):
+        for brk in ('\n', '\r', '\n ', '\x0b', '\x1c'):
+            cases.append(dict(op='compile', src=dict(lines=[f'FUNC {nm}{brk}a', '    STRING body', 'STRING defined']), meta=dict(family='define-func-linebreak', name=nm + brk, valid=False, nocorr=True)))
+            cases.append(dict(op='compile', src=dict(lines=[f'REPEAT {nm}{brk},2', '    STRING it', 'STRING defined']), meta=dict(family='define-repeat-linebreak', name=nm + brk, valid=False, nocorr=True)))
+            cases.append(dict(op='compile', src=dict(lines=[f'WHILE {nm}{brk},FALSE', '    STRING it', 'STRING defined']), meta=dict(family='define-while-linebreak', name=nm + brk, valid=False, nocorr=True)))
     # accepted names are readable and testable whatever else is defined
     pool = ['a', 'ab', 'abc', 'abcd', 'b', 'ba', 'x', 'x1', 'x12', '_', '_a', 'i', 'ii', 'count', 'count1', 'n', 'nn', 'Ab', 'AB', 'tr', 'fa', 'v_1', 'v_', 't', 'f', 'T', 'TR', 'F', 'FALS', 'TRUEX', 'FALSEY', 'Tx']
     for _ in range(count(tier, 400, 4000)):
